@@ -1,4 +1,5 @@
 import MimicProofs.Control
+import MimicProofs.ControlCode
 /-!
 # C18 — Connection ids are unique among live connections and address the right one
 
@@ -89,5 +90,55 @@ example : (run (mk 7) [Op.add, Op.add, Op.remove (7 * 65536)]).live = [7 * 65536
     is refused and admitted again after a departure. -/
 example : (add (run (mkN 2 16 65536 1) [Op.add, Op.add])).isSome = false ∧
           (add (run (mkN 2 16 65536 1) [Op.add, Op.add, Op.remove 65536])).isSome = true := by decide
+
+/-! ### the code itself (`Mimic.Extracted.ControlCode`, regenerated from `/repo` by `harness/pytrans2.py`) -/
+
+open MimicProofs.ControlCode in
+/-- **The translated `LocalControl` (`add` with `_new_connection_id` and its `while` loop, `remove`, `utils.seq`) refines
+    the model along every history**: after any sequence of arrivals and departures its state abstracts to the model's
+    state. The fuel given to the translated `while` loop is the size of the sequence space; that it is never exhausted
+    is part of the statement (an exhausted loop would make `add` fail where the model's `add` succeeds). -/
+theorem code_refines_model (sid n bits ms : Nat) (hn : 0 < n) (ops : List Op) :
+    abs (codeRun (Mimic.Extracted.ControlCode.init sid n bits ms) ops) = run (mkN n bits ms sid) ops := by
+  have h := codeRun_refines ops (Mimic.Extracted.ControlCode.init sid n bits ms) rfl
+    (by rw [abs_init]; exact mkN_inv n bits ms sid hn)
+  rw [h, abs_init]
+
+open MimicProofs.ControlCode in
+/-- **code level: ids of live connections are pairwise distinct, carry the server prefix, and a new connection is
+    admitted iff fewer than `n` are registered** — for the translated code, every sequence-space size and every history -/
+theorem code_ids_unique_and_admission (sid n bits ms : Nat) (hn : 0 < n) (ops : List Op) :
+    let s := codeRun (Mimic.Extracted.ControlCode.init sid n bits ms : LC) ops
+    (keys s).Nodup ∧ ((Mimic.Extracted.ControlCode.add s._MAX_CONNECTION_SEQ s 0).isSome ↔ (keys s).length < n) ∧
+      ∀ id ∈ keys s, ∃ r, r < n ∧ id = (sid % ms) * 2 ^ bits + r := by
+  intro s
+  have href := code_refines_model sid n bits ms hn ops
+  have hg := general_n n bits ms sid hn ops
+  simp only at hg
+  rw [← href] at hg
+  have hw : WF s ∧ Inv (abs s) := by
+    have : ∀ (ops : List Op) (s0 : LC), WF s0 → Inv (abs s0) → WF (codeRun s0 ops) ∧ Inv (abs (codeRun s0 ops)) := by
+      intro ops
+      induction ops with
+      | nil => intro s0 h1 h2; exact ⟨h1, h2⟩
+      | cons op ops ih =>
+        intro s0 h1 h2
+        have hs := codeStep_refines s0 h1 h2 op
+        have hi' : Inv (abs (codeStep s0 op)) := by rw [hs.1]; exact step_inv _ h2 op
+        exact ih (codeStep s0 op) hs.2 hi'
+    exact this ops _ rfl (by rw [abs_init]; exact mkN_inv n bits ms sid hn)
+  refine ⟨?_, ?_, ?_⟩
+  · have h1 : (keys s).reverse.Nodup := by have := hg.1; simpa [abs] using this
+    exact (List.reverse_perm (keys s)).nodup h1
+  · have hadd := add_refines s hw.1 0
+    have h2 := hg.2.1
+    rw [← hadd] at h2
+    simpa [abs, keys] using h2
+  · intro id hid
+    exact hg.2.2 id (by simpa [abs] using hid)
+
+/-- non-vacuity at code level: the translated class on a sequence space of two: two arrivals, the third is refused -/
+example : ((Mimic.Extracted.ControlCode.add 2 (MimicProofs.ControlCode.codeRun
+      (Mimic.Extracted.ControlCode.init 1 2 16 65536 : MimicProofs.ControlCode.LC) [Op.add, Op.add]) 0).isSome = false) := by decide
 
 end MimicProps.C18
